@@ -156,3 +156,95 @@ def responses_accounted(k0: int, k1: int, k2: int, bad: int) -> bool:
             if not any(key in d for d in details):
                 return False
     return True
+
+
+# ------------------------------------------------------------------------------------------------ schemas whose class names coincide
+from openapi_python_client.parser.properties import build_schemas  # noqa: E402
+
+_TWINS = (("PetOwner", "pet_owner"), ("A", "a"), ("AB", "a_b"), ("Item", "item"), ("X1", "x_1"))
+_BODIES = (
+    {"type": "object", "properties": {"n": {"type": "string"}}},
+    {"type": "object", "properties": {"m": {"type": "integer"}}},
+    {"type": "object", "properties": {"n": {"type": "string"}}, "description": "another"},
+)
+_SCH = tuple(oai.Schema.model_validate(b) for b in _BODIES)
+_SCH_COPY = tuple(oai.Schema.model_validate(b) for b in _BODIES)  # equal by value, distinct objects
+_USER = oai.Schema.model_validate({"type": "object", "properties": {"first": {"$ref": "#/components/schemas/__A__"}, "second": {"$ref": "#/components/schemas/__B__"}}})
+
+
+def class_name_twins_are_never_merged_silently(pair: int, body1: int, body2: int, first_second: bool) -> bool:
+    """
+    Two component schemas whose derived class names coincide (PetOwner / pet_owner, ...) are two document items: either
+    a diagnostic names one of them, or two distinct classes exist - whether or not their definitions are equal by
+    value, in either declaration order.  (One generated class standing for both without a diagnostic is the violation.)
+    pre: 0 <= pair < 5 and 0 <= body1 < 3 and 0 <= body2 < 3
+    post: _
+    """
+    a, b = _pick(_TWINS, pair)
+    sa, sb = _pick(_SCH, body1), _pick(_SCH_COPY, body2)
+    comps = {a: sa, b: sb} if first_second else {b: sb, a: sa}
+    s = build_schemas(components=comps, schemas=Schemas(), config=CFG_FIRST)
+    ra, rb = s.classes_by_reference.get("/components/schemas/" + a), s.classes_by_reference.get("/components/schemas/" + b)
+    text = " ".join(f"{e.header} {e.detail} {getattr(e, 'data', '')}" for e in s.errors)
+    if ra is not None and rb is not None:
+        return ra.class_info.name != rb.class_info.name and ra.class_info.module_name != rb.class_info.module_name
+    return len(s.errors) >= 1 and (ra is not None or rb is not None)
+
+
+# ------------------------------------------------------------------------------------------------ warnings of one operation accumulate
+_OPS2 = {}
+for _r in range(4):
+    for _b in range(5):
+        _resps = {"200": {"description": "ok", "content": {"application/json": {"schema": {"type": "integer"}}}}}
+        if _r in (1, 3):
+            _resps["default"] = {"description": "d", "content": {"application/json": {"schema": {"type": "string"}}}}
+        if _r in (2, 3):
+            _resps["404"] = {"$ref": "#/components/responses/Missing"}
+        _op = {"operationId": "op", "responses": _resps}
+        _content = {}
+        if _b in (1, 2, 4):
+            _content["application/json"] = {"schema": {"type": "object", "properties": {"a": {"type": "integer"}}}}
+        if _b in (2, 3):
+            _content["application/xml"] = {"schema": {"type": "string"}}
+        if _b == 4:
+            _content["image/png"] = {"schema": {"type": "string", "format": "binary"}}
+            _content["application/x-www-form-urlencoded"] = {"schema": {"type": "object", "properties": {"f": {"type": "string"}}}}
+        if _content:
+            _op["requestBody"] = {"content": _content}
+        _OPS2[(_r, _b)] = oai.Operation.model_validate(_op)
+
+
+def operation_warnings_accumulate(resp: int, body: int) -> bool:
+    """
+    Endpoint.from_data (real, nothing stubbed): every response key that is not turned into a handled response and every
+    request media type that is not turned into a body is named in the endpoint's diagnostics - also when both kinds of
+    warning occur in one operation - and what is usable is generated.
+    pre: 0 <= resp < 4 and 0 <= body < 5
+    post: _
+    """
+    op = None
+    for (r, b), v in _OPS2.items():
+        if r == resp and b == body:
+            op = v
+    ep, _, _ = Endpoint.from_data(data=op, path="/x", method="post", tags=["t"], schemas=Schemas(), parameters=Parameters(), request_bodies={}, responses={}, config=CFG_FIRST)
+    if isinstance(ep, ParseError):
+        # an operation without any usable media type may be rejected as a whole, with a diagnostic
+        return body == 3 and bool(ep.detail or ep.header)
+    text = " ".join(f"{e.header} {e.detail}" for e in ep.errors)
+    handled = sorted(int(r.status_code) for r in ep.responses)
+    if handled != [200]:
+        return False
+    if resp in (1, 3) and "default" not in text:
+        return False
+    if resp in (2, 3) and "404" not in text and "Missing" not in text:
+        return False
+    cts = sorted(b.content_type for b in ep.bodies)
+    want = {0: [], 1: ["application/json"], 2: ["application/json"], 3: [], 4: ["application/json", "application/x-www-form-urlencoded"]}
+    for k, v in want.items():
+        if body == k and cts != v:
+            return False
+    if body in (2, 3) and "application/xml" not in text:
+        return False
+    if body == 4 and "image/png" not in text:
+        return False
+    return True
